@@ -707,4 +707,32 @@ theorem Fwd.to_vector_spec {α} {x : Tensor α} {l : List α} (h : toVector x = 
     subst h
     exact ⟨checkDevice_inv hc, by simp, fun i hi => by simp [hi]⟩
 
+/-! ### concrete instances of the hypotheses (the documented examples of basic_functions.h) -/
+
+/-- the 3×3 matrix `1 4 7 / 2 5 8 / 3 6 9` of the documentation -/
+def docX : Tensor Int := ⟨⟨[3, 3], 1, 9⟩, fun i => i + 1, .here⟩
+def raw0 : Nat → Int := fun _ => 0
+
+example : values (pickFw docX [0, 0, 1] 0 raw0) = some ([1, 3], 3, [1, 4, 7, 1, 4, 7, 2, 5, 8]) := by decide
+example : values (sliceFw docX 1 1 3 raw0) = some ([3, 2], 1, [4, 5, 6, 7, 8, 9]) := by decide
+example : values (flipFw docX 0 raw0) = some ([3, 3], 1, [3, 2, 1, 6, 5, 4, 9, 8, 7]) := by decide
+example : values (flipFw docX 1 raw0) = some ([3, 3], 1, [7, 8, 9, 4, 5, 6, 1, 2, 3]) := by decide
+example : values (sumFw docX 0) = some ([1, 3], 1, [6, 15, 24]) := by decide
+example : values (maxFw docX 1) = some ([3], 1, [7, 8, 9]) := by decide
+example : values (minFw docX 1) = some ([3], 1, [1, 2, 3]) := by decide
+example : values (transposeFw docX raw0) = some ([3, 3], 1, [1, 4, 7, 2, 5, 8, 3, 6, 9]) := by decide
+example : values (broadcastFw (α := Int) ⟨⟨[3], 1, 3⟩, fun i => i + 1, .here⟩ 1 2 raw0) = some ([3, 2], 1, [1, 2, 3, 1, 2, 3]) := by decide
+example : values (concatFw [docX, ⟨⟨[3], 2, 3⟩, fun i => 10 * (i + 1), .here⟩] 1 raw0) =
+    some ([3, 4], 2, [1, 2, 3, 4, 5, 6, 7, 8, 9, 10, 20, 30, 1, 2, 3, 4, 5, 6, 7, 8, 9, 40, 50, 60]) := by decide
+example : values (permuteFw (α := Int) ⟨⟨[3, 2], 1, 6⟩, fun i => i + 1, .here⟩ [1, 0] raw0) = some ([2, 3], 1, [1, 4, 2, 5, 3, 6]) := by decide
+example : values (batchPickFw (α := Int) ⟨⟨[2], 3, 2⟩, fun i => i + 1, .here⟩ [2, 0] raw0) = some ([2], 2, [5, 6, 1, 2]) := by decide
+example : values (batchSumFw (α := Int) ⟨⟨[2], 3, 2⟩, fun i => i + 1, .here⟩) = some ([2], 1, [9, 12]) := by decide
+example : values (Move.identity (0 : Int) 1 2) = some ([2, 2], 1, [1, 0, 0, 1]) := by decide
+-- rejected calls: an axis ≥ 8 where the code rejects it, not where it does not
+example : values (sumFw docX 8) = none := by decide
+example : values (pickFw docX [0] 8 raw0) = none := by decide
+example : values (flipFw docX 8 raw0) = some ([3, 3], 1, [1, 2, 3, 4, 5, 6, 7, 8, 9]) := by decide
+example : values (sliceFw docX 4294967295 0 1 raw0) = some ([3, 3], 1, [1, 2, 3, 4, 5, 6, 7, 8, 9]) := by decide
+example : argmax docX 9 = .ok [0, 0, 0, 0, 0, 0, 0, 0, 0] := by decide
+
 end Primitiv.C02.Move
